@@ -191,9 +191,10 @@ def add_noise(lines, tape, rate):
             k = tape.draw(3)
             if k == 0:
                 ln = ln + ' ' * tape.rng(1, 3)
-            elif k == 1 and not s0:
+            elif k == 1:
+                # also after the closing quote of a string that began on an earlier line
                 ln = ln + '  ' + tape.choice(COMMENTS)
-            elif k == 2 and not s0:
+            elif k == 2:
                 ln = ln + ' #x'
             n_noise += 1
         out.append(ln)
